@@ -1,5 +1,5 @@
 (* C06 - Incremental screen updates leave the terminal identical to a full redraw.
-   Statements only; proofs are in Proofs/C06_{TermFacts,DiffFacts,SyncFacts,Refuted}.v.
+   Statements only; proofs are in Proofs/C06_{TermFacts,RowFacts,DiffFacts,SyncFacts,ScrollFacts,DoneScroll,NegCols}.v.
 
    Setting.  W x H is the terminal size, fs = full_screen.  [tbs cfg] are the
    style tables of configuration cfg (style sheet x style transformation x
@@ -11,7 +11,9 @@
    "[transparent]" has no visible attribute - and the statement was refuted
    without it, finding C06-F1; the diff now draws such cells as blanks in the
    default attributes and the hypothesis is gone.)
-   [wf_screen W H s]: all cells have display width 1 and non-empty text, rows
+   [wf_screen W H s]: all cells have display width 1 and non-empty text (at ANY
+   column index: cells beyond the right border or at negative indices - floats
+   sticking out - are allowed; get_max_column_index ignores negative ones), rows
    live below Screen.height (which MAY exceed H: a float reaching below the last
    terminal row; only rows < H are drawn), the cursor is inside the terminal.  [Sync r t]:
    terminal t shows exactly Renderer r's _last_screen (modulo attributes
@@ -35,7 +37,7 @@
 From Coq Require Import ZArith List Bool.
 From PTK Require Import Lib.Sx Lib.Py Model.C06_Terminal Model.C06_Renderer Model.C06_Run
   Proofs.C06_TermFacts Proofs.C06_RowFacts Proofs.C06_DiffFacts Proofs.C06_SyncFacts
-  Proofs.C06_ScrollFacts Proofs.C06_DoneScroll.
+  Proofs.C06_ScrollFacts Proofs.C06_DoneScroll Proofs.C06_NegCols.
 Import ListNotations.
 Open Scope Z_scope.
 
@@ -152,8 +154,42 @@ Theorem C06_erase_partial : forall r t r' ks,
   Sync W H fs tbs pvis r t -> r_erase r = (r', ks) ->
   Sync W H fs tbs pvis r' (trun W t ks) /\ pen (trun W t ks) = 0 /\ aw (trun W t ks) = true /\
   cvis (trun W t ks) = true /\
-  (forall y x, 0 <= y -> 0 <= x -> tgrid (trun W t ks) y x = blank (pen t)).
+  (forall y x, 0 <= y -> 0 <= x -> tgrid (trun W t ks) y x = blank (pen t)) /\
+  (forall y x, y < 0 -> tgrid (trun W t ks) y x = tgrid t y x).
 Proof. exact (erase_sync W H fs tbs pvis HW). Qed.
+
+(* Rows above the origin (the scrollback above an inline prompt) are never
+   changed by a render, final or not. *)
+Theorem C06_rows_above_partial : forall r t cfg done scr r' ks,
+  Sync W H fs tbs pvis r t -> wf_screen W H scr ->
+  r_render tbs fs r cfg done W H scr = (r', ks) ->
+  forall y x, y < 0 -> tgrid (trun W t ks) y x = tgrid t y x.
+Proof. exact (render_rows_above W H fs tbs pvis HW HH Hpv). Qed.
+
+(* Bare reset(): where the renderer is fresh (nothing remembered, cursor at the
+   origin: after construction, a final render, an erase or a reset) it keeps
+   Sync.  Elsewhere reset() redefines the origin as the current cursor row
+   without moving the cursor; that use is outside the theorems (the caller's
+   contract is "cursor at the start of a fresh line"). *)
+Theorem C06_reset : forall r t r' ks,
+  Sync W H fs tbs pvis r t -> Fresh r -> r_reset r = (r', ks) ->
+  Sync W H fs tbs pvis r' (t_step W t OReset ks) /\ Fresh r'.
+Proof. exact (reset_sync W H fs tbs pvis HW). Qed.
+
+(* Histories with resets ([okseq]: a reset only directly after a final render,
+   an erase or a reset, or first if the renderer is fresh). *)
+Theorem C06_sync_history_reset_partial : forall ops fresh r t,
+  Sync W H fs tbs pvis r t -> (fresh = true -> Fresh r) -> okseq W H fresh ops ->
+  Sync W H fs tbs pvis (fst (run_seq W fs tbs r t ops)) (snd (run_seq W fs tbs r t ops)).
+Proof. exact (seq_sync_reset W H fs tbs pvis HW HH Hpv). Qed.
+
+Theorem C06_equiv_reset_partial : forall ops fresh cfg scr r0 t0 r0' t0',
+  Sync W H fs tbs pvis r0 t0 -> (fresh = true -> Fresh r0) ->
+  Sync W H fs tbs pvis r0' t0' -> rlast r0' = None ->
+  okseq W H fresh ops -> wf_screen W H scr ->
+  visible_eq W pvis (snd (run_seq W fs tbs r0 t0 (ops ++ [ORender cfg false W H scr])))
+                    (snd (run_seq W fs tbs r0' t0' [ORender cfg false W H scr])).
+Proof. exact (equiv_scratch_reset W H fs tbs pvis HW HH Hpv). Qed.
 
 (* Non-vacuity: a fresh Renderer on any terminal whose cursor sits on the origin
    satisfies Sync. *)
@@ -176,6 +212,10 @@ Print Assumptions C06_no_scroll_partial.
 Print Assumptions C06_done_no_scroll_partial.
 Print Assumptions C06_done_scroll_once_partial.
 Print Assumptions C06_erase_partial.
+Print Assumptions C06_rows_above_partial.
+Print Assumptions C06_reset.
+Print Assumptions C06_sync_history_reset_partial.
+Print Assumptions C06_equiv_reset_partial.
 Print Assumptions C06_sync_initial.
 
 (* last_style tracking, explicit at every fragment of the diff loop.
@@ -214,6 +254,20 @@ Theorem C06_last_style_row_partial : forall (W : Z) (tb : tabs) (pvis : Z -> Z),
 Proof. exact do_row_ok. Qed.
 Print Assumptions C06_last_style_row_partial.
 
+(* get_max_column_index as it stood before fix aa7dc6e counted cells at negative
+   column indices (a float with left < 0) and could send the trailing trim to a
+   negative column, after which _cursor_pos was off by one (finding C06-F3,
+   repaired).  The pinned function is refuted on that point, the current one is
+   never negative, and no theorem above restricts column indices. *)
+Theorem C06_gmax_pinned_refuted :
+  exists tb r W, 1 <= W /\ Z.min (W - 1) (gmax_pinned tb r) + 1 < 0.
+Proof. exact gmax_pinned_negative. Qed.
+Print Assumptions C06_gmax_pinned_refuted.
+
+Theorem C06_trim_column_nonnegative : forall tb r W, 1 <= W -> 0 <= Z.min (W - 1) (gmax tb r) + 1.
+Proof. exact gmax_never_negative. Qed.
+Print Assumptions C06_trim_column_nonnegative.
+
 (* Non-vacuity of the hypotheses: a screen with text, a styled blank and an
    unstyled trailing blank is well formed. *)
 Example C06_wf_holds_somewhere :
@@ -233,3 +287,10 @@ Example C06_wf_cells_beyond_width :
   wf_screen 2 2 (mks 1 true 1 0 [(0, [(0, mkc [97] 0 1); (1, mkc [98] 0 1); (2, mkc [99] 2 1); (5, mkc [100] 3 1)])] []).
 Proof. exact wf_example_overhang. Qed.
 Print Assumptions C06_wf_cells_beyond_width.
+
+(* ... and a row whose cells all sit at negative column indices (a float lying left
+   of the screen). *)
+Example C06_wf_cells_at_negative_columns :
+  wf_screen 3 2 (mks 1 true 1 0 [(0, neg_row)] []).
+Proof. exact wf_example_negative. Qed.
+Print Assumptions C06_wf_cells_at_negative_columns.
